@@ -617,8 +617,15 @@ class Check:
         tb.extend(extra_trusted)
         self.coverage["trusted_base"] = tb
         names = theorem_names or r.statements.get(props_v, [])
-        ax = {}
-        for i, n in enumerate(names):
+        # `Print Assumptions X.` commands of the Props file, in order of appearance:
+        # their outputs appear in the same order in coqc's output
+        try:
+            src = re.sub(r"\(\*.*?\*\)", "", open(os.path.join(COQ, props_v)).read(), flags=re.S)
+        except OSError:
+            src = ""
+        printed = re.findall(r"Print\s+Assumptions\s+([A-Za-z0-9_']+)\s*\.", src)
+        ax = {n: "(no Print Assumptions command)" for n in names}
+        for i, n in enumerate(printed):
             ax[n] = r.assumptions[i] if r.ok and i < len(r.assumptions) else "(not checked)"
         self.coverage["print_assumptions"] = ax
         self.coverage["theorems"] = names
